@@ -295,7 +295,7 @@ func (ea *errAnalysis) swallowPaths(fn *ssa.Function, e ssa.Value, iff *ssa.If, 
 			if derivedFrom(op, e) {
 				return true
 			}
-			if ea.mayBeNilConstVia(op, reach, 0) {
+			if ea.mayBeNilConstVia(op, reach, 0) && !ea.fallbackRecomputes(r, errIdx, reach) {
 				bad = append(bad, r)
 			}
 			return true
@@ -599,6 +599,15 @@ func (ea *errAnalysis) runE3(rule string, only func(fn *ssa.Function) bool) {
 				return
 			}
 			done[recv] = true
+			// iterator captured from the enclosing function: the enclosing
+			// function owns the obligation (Error() on the same variable
+			// after the closure exists), decided there.
+			if ld, ok := recv.(*ssa.UnOp); ok && ld.Op == token.MUL {
+				if fv, ok := ld.X.(*ssa.FreeVar); ok && fn.Parent() != nil {
+					ea.e3Captured(rule, fn, fv, in)
+					return
+				}
+			}
 			// all Valid() calls on this receiver; explore from their false edges
 			var starts []point
 			allInstrs(fn, func(in2 ssa.Instruction) {
@@ -917,6 +926,98 @@ func isDeref(in ssa.Instruction, p ssa.Value) bool {
 		return x.X == p
 	case *ssa.Store:
 		return x.Addr == p
+	}
+	return false
+}
+
+// e3Captured: closure fn iterates over an iterator variable captured from its
+// parent; require that in the parent every success return reachable after the
+// closure was created consults Error() on that variable.
+func (ea *errAnalysis) e3Captured(rule string, fn *ssa.Function, fv *ssa.FreeVar, at ssa.Instruction) {
+	c, l := ea.c, ea.l
+	parent := fn.Parent()
+	k := l.fname(parent) + " iterator " + fv.Name() + " (iterated in closure " + l.fname(fn) + ")"
+	// find the binding
+	var mc *ssa.MakeClosure
+	var slot ssa.Value
+	allInstrs(parent, func(in ssa.Instruction) {
+		if m, ok := in.(*ssa.MakeClosure); ok && m.Fn == fn {
+			mc = m
+			for i, v := range fn.FreeVars {
+				if v == fv {
+					slot = m.Bindings[i]
+				}
+			}
+		}
+	})
+	if mc == nil || slot == nil || !hasErrResult(parent) {
+		c.undecided(rule, k, l.ipos(at), "captured iterator: cannot locate the closure binding in an error-bearing parent")
+		return
+	}
+	errIdx := errResultIndex(parent.Signature)
+	isErrOnSlot := func(x ssa.Instruction) bool {
+		cc := callCommon(x)
+		if cc == nil {
+			return false
+		}
+		var nm string
+		var r ssa.Value
+		if cc.IsInvoke() {
+			nm, r = cc.Method.Name(), cc.Value
+		} else if f := staticCallee(cc); f != nil && f.Signature.Recv() != nil && len(cc.Args) > 0 {
+			nm, r = f.Name(), cc.Args[0]
+		}
+		if nm != "Error" {
+			return false
+		}
+		ld, ok := stripTrivial(r).(*ssa.UnOp)
+		return ok && ld.Op == token.MUL && ld.X == slot
+	}
+	var bad *ssa.Return
+	searchFrom([]point{after(mc)}, func(x ssa.Instruction) bool {
+		if isErrOnSlot(x) {
+			return true
+		}
+		if r, ok := x.(*ssa.Return); ok {
+			if !isRecoverReturn(r) && isNilOrUnknownSuccess(retVal(r, errIdx)) && bad == nil {
+				bad = r
+			}
+			return true
+		}
+		return false
+	})
+	if bad == nil {
+		c.ok(rule, k, l.ipos(at), "the enclosing function consults Error() on the captured iterator before every success return")
+	} else {
+		c.bad(rule, k, l.ipos(at), fmt.Sprintf("captured iterator: enclosing function reaches the success return at %s without consulting Error()", l.ipos(bad)))
+	}
+}
+
+// fallbackRecomputes: the success return hands back a value obtained from a
+// storage-reaching, error-producing call made after the failure was seen
+// (the fallback idiom: the failed fast path is replaced by the slow path,
+// whose own error is checked).  Functions that only return an error cannot
+// use this idiom.
+func (ea *errAnalysis) fallbackRecomputes(r *ssa.Return, errIdx int, region map[*ssa.BasicBlock]bool) bool {
+	for i := range r.Results {
+		if i == errIdx {
+			continue
+		}
+		for _, root := range roots(retVal(r, i)) {
+			var call *ssa.Call
+			switch x := root.(type) {
+			case *ssa.Extract:
+				call, _ = x.Tuple.(*ssa.Call)
+			case *ssa.Call:
+				call = x
+			}
+			if call == nil || !region[call.Block()] {
+				continue
+			}
+			if _, has := errorValueOfCall(call); has && ea.storage.Instr(call) {
+				return true
+			}
+		}
 	}
 	return false
 }
